@@ -170,18 +170,18 @@ def configurations(pid, tier, seed):
         return {
             "a_base": (cfg(Dom=(2, 2), KSet={1, 2}, MaxL=3, InKindSeq=("emb", "catp", "catl"),
                            InnerKinds=ALLINNER, MaxOuts=2, MaxHist=4, RunActs=acts, NVer=2,
-                           EmitSmall=0, **em(300, 15)), {"nflags": 3}),
+                           EmitSmall=0, **em(300, 15)), {"nflags": 3, "freeze": True}),
             "b_pipeline": (cfg(Dom=(2, 2), KSet={2}, MaxL=3, InKindSeq=("emb", "catp"),
                                MaxOps=2, OpSet={"integrate", "multiply", "evidence"},
                                EmitOps={1, 2}, MaxHist=4, RunActs=acts, NVer=2, EmitSmall=0,
-                               **sd, **em(700, 30)), {"nflags": 3}),
+                               **sd, **em(700, 30)), {"nflags": 3, "freeze": True}),
             "c_long": (cfg(Dom=(2, 2), KSet={2}, MaxL=3, InKindSeq=("emb", "poly"), Scheme=2,
                            MaxOps=1, OpSet={"multiply"}, EmitOps={0, 1}, MaxHist=6,
                            RunActs=acts, NVer=2, EmitSmall=0, **sd, **em(400, 20)),
                        {"nflags": 3}),
         }
     if pid == "C13":
-        o = {"grads": True, "rows": False, "flagset": "fo4"}
+        o = {"grads": True, "rows": False, "flagset": "fo4", "freeze": True, "addressable": True}
         return {
             "a_free": (cfg(InnerKinds=ALLINNER, J=2, GradMod=3, EmitSmall=3, **em(40, 4)), o),
             "b_inputs": (cfg(Dom=(2, 3), InKindSeq=("emb", "catp", "catl", "const", "clog"),
@@ -205,9 +205,25 @@ def configurations(pid, tier, seed):
             "b_cat3": (cfg(Dom=(2, 2, 2), KSet={2}, MaxL=5, MaxIn=3, MaxAr=3,
                            InKindSeq=("catp", "catl"), InnerKinds=ALLINNER, QueryOn=True,
                            Scheme=6, EmitSmall=3, **sd, **em(40, 4)), o),
+            "d_onehot": (cfg(Dom=(2, 3), KSet={1, 2}, MaxL=4, InKindSeq=("catp",),
+                             InnerKinds={"sum", "had", "mix"}, QueryOn=True, Scheme=5,
+                             EmitSmall=3, **sd, **em(8, 2)), o),
             "c_norm": (cfg(Dom=(2, 3), KSet={2}, MaxL=5, InKindSeq=("catp", "catl"),
                            InnerKinds={"sum", "had", "mix"}, QueryOn=True, Scheme=4,
                            EmitSmall=3, **sd, **em(12, 2)), o),
+        }
+    if pid == "C12":
+        o = {"rows": False, "flagset": "fo4", "invariants": ["NormInv"], "normalised": True}
+        norm = dict(OnlySD=True, KSet={1, 2})
+        return {
+            "a_norm2": (cfg(Dom=(2, 3), InKindSeq=("catp", "catl"), InnerKinds=ALLINNER, MaxL=5,
+                            Scheme=4, EmitSmall=3, MaxOuts=2, **norm, **em(300, 10)), o),
+            "b_norm3": (cfg(Dom=(2, 2, 2), InKindSeq=("catp",), InnerKinds=ALLINNER, MaxL=5,
+                            MaxIn=3, MaxAr=3, Scheme=4, EmitSmall=0, MaxOuts=1, **norm,
+                            **em(40, 4)), o),
+            "c_integrate": (cfg(Dom=(2, 3), InKindSeq=("catp", "catl"), InnerKinds=ALLINNER,
+                                MaxL=4, Scheme=4, MaxOps=1, OpSet={"integrate"}, EmitOps={1},
+                                EmitSmall=2, MaxOuts=1, **norm, **em(40, 4)), o),
         }
     if pid == "C15":
         o = {"sample": True, "rows": False, "flagset": "fo4"}
@@ -326,7 +342,7 @@ def signature(beh, f):
     }
 
 
-def run(pid, tier, seed, rule, assumptions, workers=16, confs=None, extra_sig=None):
+def run(pid, tier, seed, rule, assumptions, workers=16, confs=None, extra_sig=None, post_hook=None):
     rep = runner.Report(pid, tier, seed)
     rep.assumptions = assumptions
     if confs is None:
@@ -338,7 +354,7 @@ def run(pid, tier, seed, rule, assumptions, workers=16, confs=None, extra_sig=No
     for name, (consts, opts) in confs.items():
         inv = opts.get("emit", "EmitInv")
         mod, cf = configs.write(f"{pid}_{tier}_{name}", "CircuitSys", consts,
-                                invariants=["TypeOK", inv])
+                                invariants=["TypeOK", inv] + list(opts.get("invariants", [])))
         try:
             pay, stats = tlcrun.run_tlc(mod, cf, f"{pid}_{name}", workers=workers,
                                         timeout=1800 if tier == "quick" else 7200)
@@ -408,6 +424,8 @@ def run(pid, tier, seed, rule, assumptions, workers=16, confs=None, extra_sig=No
                             f"batch={f.get('batch')} layers={json.dumps(b['layers'])[:300]} "
                             f"bases={b['bases']} ops={json.dumps(b['ops'])[:200]} "
                             f"{f.get('detail', '')[:300]}")
+    if post_hook is not None:
+        post_hook(rep)
     rep.extra["compiled_layer_tags"] = sorted(tags)
     rep.extra["operator_refusals"] = refused
     rep.extra["failures_attributed_to_operands_or_other_properties"] = inherited
